@@ -1,0 +1,8 @@
+//go:build !verif
+
+package pilosa
+
+import "github.com/pilosa/pilosa/pql"
+
+// verifForward is a no-op without build tag verif (see verif_hook_forward_on.go).
+func verifForward(nodeID, index string, q *pql.Query, text string) {}
